@@ -25,6 +25,8 @@ import AutosarVerif.Lemmas.Range
 import AutosarVerif.Model.ToySpec
 import AutosarVerif.Lemmas.RangeGroups
 import AutosarVerif.Lemmas.RangeGroupsReach
+import AutosarVerif.Lemmas.MergeKeeps
+import AutosarVerif.Lemmas.MergeKeepsWitness
 
 namespace AV.C07
 open AV.W
@@ -138,5 +140,20 @@ theorem C07_obs_bag_parent_not_scanned : type_of% @AV.W.obs_bag_parent_not_scann
 
 /-- `theorem obs_order_depends_on_version : OrderedKids cexSpec 0 1 (.elem (cexHdr 1 999 5) .nil (.elem (cexHdr 2 102 5) .nil .nil)) ∧ ¬ OrderedKids cexSpec 0 2 (.elem (cexHdr 1 999 5) .nil (.elem (cexHdr 2 102 5) .nil .nil))` -/
 theorem C07_obs_order_depends_on_version : type_of% @AV.W.obs_order_depends_on_version := @AV.W.obs_order_depends_on_version
+
+
+/-! ### added at the end of the third session (proof pack LM3): restated by name
+(`type_of%` keeps the statement identical to the lemma; the signature is quoted in the comment) -/
+
+/-- a successful `create_sub_element` made an element the parent's type permits in the version `min_version` returns, at a position of the reported range
+`theorem opCreate_ok_permitted (w : World) (p name : Nat) (pos? : Option Nat) (s : String) (hok : (opCreate S V w p name pos?).2 = .ok s) : ∃ k c ver ety idx, locate w p = some (k, c) ∧ minVersion V (w.models[k]!) c = some ver ∧ S.findSub (lastOf c).1.ety.typ name ver = some (ety, idx) ∧ S.isNamedIn ety.typ ver = false ∧ (insertRange S (lastOf c).1 (lastOf c).2 name ver).isSome ∧ s = s!"e{w.nextId}"` -/
+theorem C07_created_element_is_permitted_in_the_lowest_version : type_of% @AV.W.opCreate_ok_permitted := @AV.W.opCreate_ok_permitted
+
+/-- `theorem opNamed_ok_permitted (w : World) (p name : Nat) (item : Bytes) (pos? : Option Nat) (s : String) (hok : (opNamed S V w p name item pos?).2 = .ok s) : ∃ k c ver ety idx, locate w p = some (k, c) ∧ minVersion V (w.models[k]!) c = some ver ∧ S.findSub (lastOf c).1.ety.typ name ver = some (ety, idx) ∧ S.isNamedIn ety.typ ver = true ∧ (insertRange S (lastOf c).1 (lastOf c).2 name ver).isSome ∧ s = s!"e{w.nextId} e{w.nextId + 1}"` -/
+theorem C07_created_named_element_is_permitted_in_the_lowest_version : type_of% @AV.W.opNamed_ok_permitted := @AV.W.opNamed_ok_permitted
+
+/-- **negation witness = known finding c07:content-below-mixed-version-file-set-checked-against-lowest-version-only**: a reachable world with files of versions 1 and 2; the create succeeds; the new element is in the view of both files and is not permitted in version 2
+`theorem mixed_version_finding : (c07W.models.map fun m => m.files.map fun f => (f.id, f.version)) = [[(0, 1), (1, 2)]] ∧ -- the parent: type 1, version the create is checked against: 1 ((locate c07W 1).map fun kc => ((lastOf kc.2).1.ety.typ, effective kc.2, minVersion nameEnv c07W.models[kc.1]! kc.2)) = some (1, [0, 1], some 1) ∧ (opCreate c07Spec nameEnv c07W 1 102 none).2 = .ok "e2" ∧ -- the created element (id, name, local file set) and its effective file set: f1 is in it (c07W'.models.map fun m => m.rootItems.hdrs.map fun h => (h.id, h.name, h.files)) = [[(0, 100, [0, 1]), (1, 101, []), (2, 102, [])]] ∧ ((locate c07W' 2).map fun kc => effective kc.2) = some [0, 1] ∧ -- permitted in version 1, NOT permitted in version 2 (c07Spec.findSub 1 102 1).isSome = true ∧ c07Spec.findSub 1 102 2 = none` -/
+theorem C07_witness_content_checked_against_lowest_version_only : type_of% @AV.W.LM3.MixedVer.mixed_version_finding := @AV.W.LM3.MixedVer.mixed_version_finding
 
 end AV.C07
